@@ -5,7 +5,7 @@ import itertools
 import re
 import vlib
 
-PROOFS = ["MgProof.C06.Lemmas", "MgProof.C06.Steps", "MgProof.C06.Props"]
+PROOFS = ["MgProof.C06.Lemmas", "MgProof.C06.Steps", "MgProof.C06.Reach", "MgProof.C06.Props"]
 GREP = ["MgModel/C06", "MgProof/C06", "MgModel/Common", "Drv/C06.lean"]
 REPO_SRCS = ["muggle/c/memory/memory_pool.c"]
 
